@@ -139,7 +139,7 @@ theorem cinv_delete (cmp : K → K → Int) {t t' : Tree K V} {c : Cursor K} (hc
   have hbg : deleteBumpsGen = true := by decide
   unfold delete at hp
   cases hres : del cmp k t.root.id t.root with
-  | absent => rw [hres] at hp; simp only [Option.some.injEq] at hp; subst hp; exact hc
+  | absent => rw [hres] at hp; simp only [deleteMissReturnsFirst, if_true, Option.some.injEq] at hp; subst hp; exact hc
   | crash => rw [hres] at hp; cases hp
   | done r u =>
     rw [hres] at hp; simp only [Option.some.injEq] at hp; subst hp
@@ -216,7 +216,7 @@ theorem seekWith_gen (step : Int → Bool) (fwd : Bool) (cmp : K → K → Int) 
     obtain ⟨p, f⟩ := r
     simp only [hg, if_true]
     by_cases hst : step (cmp k p.k) = true
-    · simp only [hst, if_true]
+    · simp only [hst, seekStepCalls_true, Bool.and_true, if_true]
       cases fwd with
       | true => simp only [if_true, stepFwd]; split <;> rfl
       | false => simp only [Bool.false_eq_true, if_false, stepBwd]; split <;> rfl
